@@ -236,18 +236,26 @@ def _float_arr_to_int_arr(float_arr):
         return int_arr
 
 
+def _sympy_integer_to_int(value: Any) -> Any:
+    """A sympy.Integer combined with python numbers or TimeType yields sympy.Rational which is not a valid numeric
+    result. Symbolic results (i.e. for a symbolic argument) are kept."""
+    if isinstance(value, sympy.Integer):
+        return int(value)
+    return value
+
+
 def numpy_compatible_ceiling(input_value: Any) -> Any:
     if isinstance(input_value, numpy.ndarray):
         return _float_arr_to_int_arr(numpy.ceil(input_value))
     else:
-        return sympy.ceiling(input_value)
+        return _sympy_integer_to_int(sympy.ceiling(input_value))
 
 
 def _floor_to_int(input_value: Any) -> Any:
     if isinstance(input_value, numpy.ndarray):
         return _float_arr_to_int_arr(numpy.floor(input_value))
     else:
-        return sympy.floor(input_value)
+        return _sympy_integer_to_int(sympy.floor(input_value))
 
 
 def to_numpy(sympy_array: sympy.NDimArray) -> numpy.ndarray:
